@@ -2,7 +2,8 @@
 strings, floats, flags.  See functions_ops.py for conventions."""
 from pyvc.contracts import contract
 from pyvc.vocab import (forall, implies, ubig, sdecode, take_top, put_all, AnyError, sha256, sha512, ed_verify, ed_sign,
-                        is_list_or_absent, list_len_at, calls, same, dict_same, str_keys_same, use_lemma, top_items)
+                        is_list_or_absent, list_len_at, calls, same, dict_same, str_keys_same, use_lemma, top_items,
+                        defined, unknown_bool)
 from tapescript.errors import ScriptExecutionError
 from tapescript.functions import (int_to_bytes, bytes_to_int, bytes_to_bool, bytes_to_float, float_to_bytes,
                                   run_sig_extensions, run_plugins, clamp_scalar, derive_key_from_seed,
@@ -107,6 +108,32 @@ def msg(cache, f):
         if k in cache and (f & (1 << (i - 1))) == 0:
             m = m + cache[k]
     return m
+
+
+def sig_valid(cache, allowed, key, sig):
+    """C02 / C03: `sig` is a valid signature under `key` in the sense of C02 (lengths, permitted
+    flag bits, Ed25519 over the flag-selected message)"""
+    if len(key) != 32:
+        return False
+    if len(sig) != 64 and len(sig) != 65:
+        return False
+    f = 0 if len(sig) == 64 else sig[64]
+    if (f & (allowed ^ 255)) != 0:
+        return False
+    return ed_verify(key, msg(cache, f), sig[:64])
+
+
+def abs_check_sig(tape, stack, cache):
+    """C03: what the matching loop of OP_CHECK_MULTISIG may rely on.  OP_CHECK_SIG without plugins reads
+    the allowed-flags byte, takes the key and the signature, and either fails or yields the truth value
+    of sig_valid -- a function of (cache, allowed, key, sig) only; nothing else changes.
+    Justified against spec_check_sig by the lemma C03/abs-sound (props/lemmas_multisig.py)."""
+    allowed = rd_u8(tape)
+    key = stack.get()
+    sig = stack.get()
+    if unknown_bool('check_sig_fails'):
+        raise AnyError
+    stack.put(b'\xff' if defined('sig_valid', sig_valid, cache, allowed, key, sig) else b'\x00')
 
 
 def via_stack(stack, item):
